@@ -312,8 +312,10 @@ class Runner:
                 # two-slice representation every DBN method relies on: slice-0 twin of every node, intra-slice edges in both slices
                 miss = [x for x in s.nodes if (x[0], 0) not in s.nodes]
                 unm = [(u, v) for (u, v) in s.edges if u[1] == v[1] and ((u[0], 1 - u[1]), (v[0], 1 - v[1])) not in s.edges]
-                if miss or unm:
-                    out["twoslice"] = ("slice-structure-broken", f"nodes without slice-0 twin {miss}; intra-slice edges without twin {unm}")
+                touched = {x for e in s.edges for x in e}
+                iso1 = [x for x in s.nodes if x[1] == 1 and x not in touched]  # slice-1 nodes only ever come with an edge
+                if miss or unm or iso1:
+                    out["twoslice"] = ("slice-structure-broken", f"nodes without slice-0 twin {miss}; intra-slice edges without twin {unm}; edge-less slice-1 nodes {iso1}")
         return out
 
     def inv(self, pre, post, op, who="model"):
